@@ -59,6 +59,9 @@ def op_st(counted: list):
         st.tuples(st.just("adv"), st.sampled_from([1, 1, 2, 4, 16, 64])),
         st.tuples(st.just("adv_rec"), st.sampled_from([-1, 0, 0, 1])),  # to recovery boundary (+/- 1 tick)
         st.tuples(st.just("adv_win"), st.sampled_from([-1, 0, 0, 1])),  # oldest live failure ages to window (+/- 1)
+        st.tuples(st.just("adv_fine"), st.sampled_from([1, 2, 1000, 2**18, 2**20])),  # units of 2**-30 s (~0.93 ns)
+        st.tuples(st.just("adv_rec_f"), st.sampled_from([-1, 1, -(2**18), 2**18, -(2**20), -500, 500])),  # recovery boundary +/- ns .. ms
+        st.tuples(st.just("adv_win_f"), st.sampled_from([-1, 1, -(2**18), 2**18, -500, 500])),  # oldest live failure ages to window +/- ns .. ms
         st.tuples(st.just("adv_win_class"), st.sampled_from(counted), st.sampled_from([-1, 0, 0, 1])),  # oldest live failure of that class
     )
 
@@ -111,41 +114,53 @@ def run_history(case: dict):
     out: list = []
     info = {"opens": 0, "open_after_advance": False, "boundary_age": False, "cycle": False, "half_open": False, "probe_rejections": 0, "closed_again": 0}
     bootstrap.set_clock(clock)
+    FINE = 2**24  # model time unit: 2**-30 s; one 1/64 s tick = 2**24 units (all arithmetic stays exact in doubles)
+
+    def now_fine() -> int:
+        return round((clock.t - clock.t0) * 2**30)
+
+    def goto(target: int) -> None:
+        clock.t = clock.t0 + target / 2**30
+
     try:
         real = make_real(spec)
-        m = BreakerModel(spec)
+        m = BreakerModel({**spec, "window": spec.get("window", 64 * 60) * FINE, "recovery": spec.get("recovery", 64 * 30) * FINE})
         adv_since_fail = False
         seen_states = []
         for i, op in enumerate(case["ops"]):
-            t = clock.rel_ticks()
+            t = now_fine()
             kind = op[0]
             before = m.state
             if kind == "adv":
                 clock.t += g(op[1])
                 adv_since_fail = True
                 continue
-            if kind == "adv_rec":
+            if kind == "adv_fine":
+                clock.t += op[1] / 2**30
+                adv_since_fail = True
+                continue
+            if kind in ("adv_rec", "adv_rec_f"):
                 if m.state == "open":
-                    target = m.opened_at + m.recovery + op[1]
+                    target = m.opened_at + m.recovery + (op[1] * FINE if kind == "adv_rec" else op[1])
                     if target > t:
-                        clock.t = clock.t0 + g(target)
+                        goto(target)
                         adv_since_fail = True
                 continue
-            if kind == "adv_win":
+            if kind in ("adv_win", "adv_win_f"):
                 live = m.live(t)
                 if m.state == "closed" and live:
-                    target = live[0][0] + m.window + op[1]
+                    target = live[0][0] + m.window + (op[1] * FINE if kind == "adv_win" else op[1])
                     if target > t:
-                        clock.t = clock.t0 + g(target)
+                        goto(target)
                         adv_since_fail = True
                         info["boundary_age"] = True
                 continue
             if kind == "adv_win_class":
                 live = [f for f in m.live(t) if f[1] == op[1]]
                 if m.state == "closed" and live:
-                    target = live[0][0] + m.window + op[2]
+                    target = live[0][0] + m.window + op[2] * FINE
                     if target > t:
-                        clock.t = clock.t0 + g(target)
+                        goto(target)
                         adv_since_fail = True
                         info["boundary_age"] = True
                 continue
@@ -201,7 +216,7 @@ def run_history(case: dict):
                 raise AssertionError(kind)
             rs = real.state.value
             if got != want or rs != m.state:
-                what = f"op #{i} {op} at t={t} ticks (model state before: {before}): implementation returned {got!r} / state {rs}, model {want!r} / state {m.state}"
+                what = f"op #{i} {op} at t={t} x 2^-30 s (model state before: {before}): implementation returned {got!r} / state {rs}, model {want!r} / state {m.state}"
                 out.append((prop, f"{prop}:breaker-{kind}-in-{before}", f"breaker {spec}: {what}"))
                 break
     finally:
